@@ -17,7 +17,7 @@ class C07(PoolScenario):
     prop = "C07"
     level = "exploration"
     profiles = ["iadd-replica", "iadd-replica", "sparksql"]
-    budgets = {"quick": 4000, "thorough": 60000}
+    budgets = {"quick": 12000, "thorough": 250000}
     wall_caps = {"quick": 110, "thorough": 1500}
     rule = ("one run = a driver holding two replicas of the accumulator (a does +=, a' does a' = a' + b) and several "
             "partials b_i (fresh, filled, empty, reloaded from JSON); seeded interleaving of fills of a/a' (mirrored), "
